@@ -1218,7 +1218,7 @@ impl Property for C17 {
     fn budget(tier: Tier) -> u64 {
         match tier {
             Tier::Quick => 120_000,
-            Tier::Thorough => 3_000_000,
+            Tier::Thorough => 2_400_000,
         }
     }
 
